@@ -255,7 +255,7 @@ HARNESS_SETS = {
     "C02": ["l1"], "C03": ["l1"],
     # agent-level checks with a UP4 leg: the UP4 L1 world lives in verif_c14_test.go (+ the fake P4Runtime server)
     "C01": ["l1", "c14", "p4rt"], "C05": ["l1", "c14", "p4rt"], "C14": ["l1", "c14", "p4rt"],
-    "C06": ["c06", "l1", "nl"], "C07": ["c07", "l1"], "C12": ["c12", "l1", "nl"], "C10": ["c10", "nl"],
+    "C06": ["c06", "l1", "nl"], "C07": ["c07", "l1"], "C13": ["c13", "l1", "p4rt"], "C12": ["c12", "l1", "nl"], "C10": ["c10", "nl"],
     # C17 / C08: own harness + the UP4 world (Applications entries the real UP4 plug-in installs, tools/props/c17up4.py)
     "C17": ["c17", "l1", "c14", "p4rt"], "C08": ["c08", "l1", "c14", "p4rt"],
     "C04": ["c04", "l1", "p4rt"], "C15": ["c15", "l1", "p4rt"], "C16": ["c16", "p4rt"], "C11": ["c11", "l1", "p4rt"],
